@@ -8,7 +8,7 @@ from models import regex as MR
 from sim.core import FAILED
 
 ID = "C11"
-CASES = {"quick": 500, "thorough": 9000}
+CASES = {"quick": 3000, "thorough": 9000}
 RULE = ("seeded (grammar | PDA) x (Regex | DFA | NFA | epsilon-NFA, incl. deterministic automata that are "
         "instances of the NFA / epsilon-NFA classes) pairs with partly overlapping alphabets, empty languages "
         "and epsilon on either side x value-hash schedule x PYTHONHASHSEED; result grammar: bounded language by "
